@@ -71,7 +71,7 @@ def compare(spec, sc):
             diffs.append((f"exploit {n}", "defined", "missing"))
             continue
         d(f"exploit {n}", (e["service"], e["os"], float(e["prob"]), float(e["cost"]), int(e["access"])),
-          (got["service"], got["os"], float(got["prob"]), float(got["cost"]), got["access"] if not isinstance(got["access"], str) else got["access"]))
+          (got["service"], got["os"], float(got["prob"]), float(got["cost"]), got["access"]))
     d("exploit names", list(spec["exploits"]), list(sc.exploits))
     for n, e in spec["privescs"].items():
         got = sc.privescs.get(n)
